@@ -5,7 +5,6 @@ import (
 
 	"sigs.k8s.io/structured-merge-diff/v6/fieldpath"
 	"sigs.k8s.io/structured-merge-diff/v6/merge"
-	"sigs.k8s.io/structured-merge-diff/v6/value"
 
 	"verifharness/internal/gen"
 	"verifharness/internal/vx"
@@ -116,11 +115,9 @@ func domHlp(r *gen.Rng, n int, thorough bool, o *Out) {
 						"set-from-value-same-in-every-representation "+op, op)
 				}
 			}
-			// every member is a leaf path of the value: the set of leaves is its own Leaves()
-			s := fieldpath.SetFromValue(value.NewValueInterface(u))
-			if !s.Leaves().Equals(s) {
-				o.Fail("C15", "set-from-value-holds-leaves-only", "", "set-from-value-holds-leaves-only "+op, op)
-			}
+			// (not judged: "the set holds leaves only" — two list items with the same guessed key, one with a
+			// scalar and one with a map under the same field, legitimately give a path and an extension of
+			// it; kernel-checked counterexample C15.cexTwins, theorem setFromValue_leaves_only_of_distinctElems)
 			return out
 		})
 		a := randManaged(cr, univ, nil)
